@@ -10,6 +10,7 @@ import (
 
 	"helm.sh/helm/v4/pkg/action"
 	chart "helm.sh/helm/v4/pkg/chart/v2"
+	"helm.sh/helm/v4/pkg/chart/v2/loader"
 	chartutil "helm.sh/helm/v4/pkg/chart/v2/util"
 	"helm.sh/helm/v4/pkg/lint"
 	release "helm.sh/helm/v4/pkg/release/v1"
@@ -152,6 +153,19 @@ func corrSchema(seed uint64, n int, tier string, out string, replay string) {
 		for j := r.Intn(3); j > 0; j-- {
 			setAtPath(user, Pick(r, []string{"a", "b", "suba.a", "suba.b", "subb.c", "suba.suba.a", "d"}), genSchemaVal(r, 2))
 		}
+		if i%10 == 0 {
+			// targeted lint stream (lint runs on every fifth case): a typed (sometimes required) top-level key with a
+			// valid default, removed by the user with an explicit null
+			k := schemaKeys[(i/10)%len(schemaKeys)]
+			root := map[string]any{"type": "object", "properties": map[string]any{k: map[string]any{"type": "string"}}}
+			if (i/10)%3 == 0 {
+				root["required"] = []any{k}
+			}
+			g.Schema = root
+			g.values[k] = "s0"
+			user = map[string]any{k: nil}
+			rep.H("lint-null-override-case")
+		}
 		schemaTreeCase(m, rep, r, tmp, g, user, seed, i)
 	}
 	rep.Write(out, m)
@@ -245,9 +259,17 @@ func schemaTreeCase(m *Model, rep *Report, r *Rng, tmp string, g *genSChart, use
 			joined := strings.Join(msgs, "\n")
 			lintSchemaFail := strings.Contains(joined, "values don't meet the specifications of the schema") || strings.Contains(joined, "[ERROR] values.yaml:")
 			rep.H("lint:" + map[bool]string{true: "reject", false: "pass"}[lintSchemaFail])
+			// what lint's own two value pipelines give, computed with the library calls it is written from:
+			// (A) the values rule: the root schema on CoalesceTables(overrides, values.yaml); (B) the templates
+			// rule: full validation of CoalesceValues(chart, overrides) coalesced once more.  Lint's verdict must be
+			// exactly that; where that differs from the property's verdict it is the known double-coalescing finding.
+			oracle, oerr := lintOracle(filepath.Join(dir, "root"), user)
+			if oerr == nil && oracle != lintSchemaFail {
+				rep.Issue(Issue{Kind: "monitor", Fingerprint: "C14:lint-pipeline", What: fmt.Sprintf("lint schema error=%v but its value pipelines (values rule: CoalesceTables of the overrides over values.yaml; templates rule: CoalesceValues then validation) give %v", lintSchemaFail, oracle), Case: cs, Impl: trunc(joined, 500), Seed: seed, Index: idx})
+			}
 			if lintSchemaFail != shouldFail {
 				fp := "C14:lint-gate"
-				if hasNullDefault(g) || hasNullValue(user) {
+				if (hasNullDefault(g) || hasNullValue(user)) && (oerr != nil || oracle == lintSchemaFail) {
 					// one root cause: lint coalesces twice, so a null (in the defaults or given by the
 					// user to remove a default) is resolved a second time against the chart defaults
 					fp = "C14:lint-null-default"
@@ -408,4 +430,37 @@ func schemaUpgradeCase(rep *Report, r *Rng, g *genSChart, user map[string]any, s
 			}
 		}
 	}
+}
+
+// lintOracle: does lint's schema checking reject, according to the two pipelines it is built from?
+func lintOracle(chartDir string, user map[string]any) (bool, error) {
+	fail := false
+	// (A) rules.ValuesWithOverrides
+	if rootVals, err := chartutil.ReadValuesFile(filepath.Join(chartDir, "values.yaml")); err == nil {
+		if schema, err := os.ReadFile(filepath.Join(chartDir, "values.schema.json")); err == nil && len(schema) > 0 {
+			cv := chartutil.CoalesceTables(make(map[string]any), deepCopyMap(user))
+			cv = chartutil.CoalesceTables(cv, rootVals)
+			if chartutil.ValidateAgainstSingleSchema(cv, schema) != nil {
+				fail = true
+			}
+		}
+	}
+	// (B) rules.Templates
+	if _, err := os.Stat(filepath.Join(chartDir, "templates")); err == nil {
+		lc, err := loader.LoadDir(chartDir)
+		if err != nil {
+			return false, err
+		}
+		if err := chartutil.ProcessDependencies(lc, deepCopyMap(user)); err != nil {
+			return false, err
+		}
+		c1, err := chartutil.CoalesceValues(lc, deepCopyMap(user))
+		if err != nil {
+			return false, err
+		}
+		if _, err := chartutil.ToRenderValuesWithSchemaValidation(lc, c1, chartutil.ReleaseOptions{Name: "test-release", Namespace: "default"}, nil, false); err != nil {
+			fail = true
+		}
+	}
+	return fail, nil
 }
